@@ -11,7 +11,7 @@
 //!   ser       serialise → deserialise → serialise reproduces the bytes and the deserialised object decompresses identically
 //!   seedwords every stored seed is the little-endian image of four consecutive `u64` draws of `Source::new(seed_xa)`
 //!             in the routine's loop order (GLWE: the stored seed is `seed_xa` itself)
-//! For glwe / gglwe / ggsw the line continues with everything the Lean model needs:
+//! For glwe / gglwe / ggsw / ksk / tsk the line continues with everything the Lean model needs:
 //!   `sk=… pt=… top=<u64 words> seeds=<4 words per cell, storage order> child=<words per cell; …> e=<poly per cell in loop order; …> obj=<cells in storage order: cols;…/…>`
 use std::io::{BufRead, Write};
 
@@ -125,7 +125,9 @@ macro_rules! cmp_backend {
             fill_glwe_secret(&mut sk, dist, &mut src_s);
             let mut sk_in = GLWESecret::alloc(deg, Rank(rank_in as u32));
             fill_glwe_secret(&mut sk_in, dist, &mut src_s);
-            let sk_vis = replay_secret(n, rank, dist, &mut Source::new(seed32(sxs)));
+            let mut src_r = Source::new(seed32(sxs));
+            let sk_vis = replay_secret(n, rank, dist, &mut src_r);
+            let sk_in_vis = replay_secret(n, rank_in, dist, &mut src_r);
             let mut skp = module.glwe_secret_prepared_alloc(Rank(rank as u32));
             module.glwe_secret_prepare(&mut skp, &sk);
 
@@ -330,6 +332,14 @@ macro_rules! cmp_backend {
                     let mut all_child: Vec<String> = Vec::new();
                     let mut all_obj: Vec<String> = Vec::new();
                     let mut outer = Source::new(seed32(sxa));
+                    // layouts whose cells the Lean model recomputes; `cell_pt` = the scalar the routine hands to
+                    // gglwe_compressed_encrypt_sk when the harness knows it (tsk: the model derives it from sk)
+                    let model_op = matches!(op, "gglwe" | "ksk" | "tsk");
+                    let cell_pt: Option<&ScalarZnx<Vec<u8>>> = match op {
+                        "gglwe" => Some(&pt),
+                        "ksk" => Some(&sk_in_vis),
+                        _ => None,
+                    };
                     for (d, s, seeds, ok) in subs.iter() {
                         sok &= *ok;
                         let rin = seeds.len() / dnum.max(1);
@@ -354,7 +364,7 @@ macro_rules! cmp_backend {
                                 dseeds.push(*seed);
                                 nm += mask_ok(&cd, seed) as i32;
                                 nd += (phase_mod(&cd, &sk_cols, b) == phase_mod(&cs, &sk_cols, b)) as i32;
-                                if op == "gglwe" {
+                                if model_op {
                                     all_seeds.push(show_words(
                                         &(0..4).map(|i| u64::from_le_bytes(seed[8 * i..8 * i + 8].try_into().unwrap())).collect::<Vec<_>>(),
                                     ));
@@ -363,29 +373,34 @@ macro_rules! cmp_backend {
                                 }
                             }
                         }
-                        if op == "gglwe" {
+                        if model_op {
                             // per-cell standard encryption with the stored seed and the error source in loop order
                             let mut xe2 = Source::new(seed32(sxe));
                             let mut errs: Vec<String> = Vec::new();
                             let mut xe3 = Source::new(seed32(sxe));
                             for col in 0..rin {
                                 for row in 0..dnum {
-                                    let mut tmp_pt = GLWEPlaintext::alloc(deg, bk, tk);
-                                    module.vec_znx_add_scalar_assign(tmp_pt.data_mut(), 0, (dsize - 1) + row * dsize, &pt, col);
-                                    module.vec_znx_normalize_assign(b, tmp_pt.data_mut(), 0, scratch.borrow());
-                                    let mut st = GLWE::alloc_from_infos(&glwe_layout);
-                                    let mut xa2 = Source::new(seeds[row * rin + col]);
-                                    module.glwe_encrypt_sk(&mut st, &tmp_pt, &skp, &enc, &mut xe2, &mut xa2, scratch.borrow());
-                                    ne += (st.data().raw() == d.at(row, col).data().raw()) as i32;
+                                    if let Some(cpt) = cell_pt {
+                                        let mut tmp_pt = GLWEPlaintext::alloc(deg, bk, tk);
+                                        module.vec_znx_add_scalar_assign(tmp_pt.data_mut(), 0, (dsize - 1) + row * dsize, cpt, col);
+                                        module.vec_znx_normalize_assign(b, tmp_pt.data_mut(), 0, scratch.borrow());
+                                        let mut st = GLWE::alloc_from_infos(&glwe_layout);
+                                        let mut xa2 = Source::new(seeds[row * rin + col]);
+                                        module.glwe_encrypt_sk(&mut st, &tmp_pt, &skp, &enc, &mut xe2, &mut xa2, scratch.borrow());
+                                        ne += (st.data().raw() == d.at(row, col).data().raw()) as i32;
+                                    }
                                     let mut ev = VecZnx::alloc(n, 1, size);
                                     module.vec_znx_add_normal(b, &mut ev, 0, noise, &mut xe3);
                                     errs.push(show_vec(&ev));
                                 }
                             }
+                            if cell_pt.is_none() {
+                                ne = -1;
+                            }
                             tail = format!(
                                 " sk={} pt={} top={} seeds={} child={} e={} obj={}",
                                 show_scalar(&sk_vis),
-                                show_scalar(&pt),
+                                cell_pt.map(show_scalar).unwrap_or("-".to_string()),
                                 show_words(&words(&mut Source::new(seed32(sxa)), 4 * rin * dnum)),
                                 all_seeds.join(";"),
                                 all_child.join(";"),
